@@ -83,3 +83,9 @@ void gpage_free(gpage *g);
  * it does its work, never what it prints. */
 extern __thread int vdrv_tid;
 extern int vdrv_nthreads;
+
+/* the --poison byte of this run (0 = none): handlers use it to fill memory that
+ * is NOT part of a call's declared arguments (padding bits after a declared bit
+ * count, bytes after a declared length) so that a result computed from such
+ * memory differs between the residue modes of the purity check */
+unsigned vdrv_poison(void);
